@@ -4,6 +4,7 @@ import Desert.Compress
 import Desert.Refs
 import Desert.Own
 import Desert.Evolution
+import Desert.DeclWF
 /-!
 Line-protocol driver: one request per line on stdin, one response per line on stdout.
 Executes the model's definitions (`enc`, `dec` through `runCtx` and `runAbs`, var-ints, …) so the
@@ -55,6 +56,10 @@ def step (env : Env) (line : String) : Env × String :=
   | none => (env, "bad-request unbalanced")
   | some [] => (env, "bad-request empty")
   | some (.atom "reset" :: _) => ([], "ok")
+  | some [.atom "wfall"] =>
+    -- which declarations satisfy the hypothesis of the round-trip theorems (`declWFb`)
+    let bad := env.filter fun p => !tyDeclWFb p.2
+    (env, s!"ok wf={env.length - bad.length} outside={" ".intercalate (bad.map (·.1))}")
   | some [.atom "env", d] =>
     match tyDeclOfSexp d with
     | some (k, td) => ((k, td) :: env, "ok")
